@@ -2,4 +2,4 @@ import Fuzion.Driver.Run
 def main : IO Unit := do
   let hin ← IO.getStdin
   let hout ← IO.getStdout
-  Fuzion.Run.loop hin hout {} 1
+  Fuzion.Run.loop hin hout {} [] 1
